@@ -698,6 +698,131 @@ func c08Case(c *core.Ctx, i int64, toks []lang.Tok, orig *lang.Program, r *rand.
 // c08Limits: runtime errors raised at the implementation limits must also
 // point just after the last token of the failing operation: the operand whose
 // push finds the stack full, the 'def' ... '{' of the block that does not fit.
+// c08Long: programs of more than a thousand lines.
+//
+//	kind 0: one failing statement (division by zero, directly followed by the newline) at line L of n,
+//	        for a batch of 50 values of L: the error must be at the end of that statement;
+//	kind 1: every line is a statement with a syntax error of its own: one diagnostic per line, each
+//	        decoding to its own line;
+//	kind 2: k distinct constants in front of an operation that fails at an operand fetched through a
+//	        1-, 2- or 3-byte constant index, directly and after dump and load.
+func c08Long(c *core.Ctx, i int64, kind, k int) {
+	switch kind {
+	case 0:
+		const n = 1300
+		for L := k * 50; L < (k+1)*50 && L < n; L++ {
+			var b strings.Builder
+			want := -1
+			for j := 0; j < n; j++ {
+				if j == L {
+					b.WriteString("eval 1 / 0")
+					want = b.Len()
+					b.WriteString("\n")
+				} else {
+					b.WriteString("eval 1\n")
+				}
+			}
+			src := []byte(b.String())
+			res := InterpretReused(src)
+			c.Eval(1)
+			if res.Panic != "" || res.Err == nil {
+				c.Violation("runtime-error-position", fmt.Sprintf("a %d-line program failing at line %d: err=%v %s", n, L+1, res.Err, res.Panic), nil)
+				return
+			}
+			_, pos, ok := lang.ClassOfRuntimeError(res.Err.Error())
+			if exp := posString(src, want); !ok || pos != exp {
+				c.Violation("runtime-error-position", fmt.Sprintf("a %d-line program whose line %d divides by zero reports %q, the failing operation's last token ends at %s", n, L+1, res.Err, exp), nil)
+				return
+			}
+			c.Count("long_program_error_positions_checked", 1)
+		}
+		c.Nontrivial(core.Hash("long-sweep", k))
+	case 1:
+		n := []int{1100, 2100, 3100}[k%3]
+		stmt := []string{"print )", "eval 1 +", "var = 1"}[k/3%3]
+		src := []byte(strings.Repeat(stmt+"\n", n))
+		_, log, err, pan, _ := ParseOnly(src, "in")
+		c.Eval(1)
+		if pan != "" || err == nil {
+			c.Violation("compile-diagnostic-position", fmt.Sprintf("%d lines of %q: err=%v %s", n, stmt, err, pan), nil)
+			return
+		}
+		diags, _, _ := ParseDiags(log)
+		lines := map[int]bool{}
+		for _, d := range diags {
+			if why := decodeDiag(src, d, false); why != "" {
+				c.Violation("compile-diagnostic-position", fmt.Sprintf("%d lines of %q: diagnostic %q: %s", n, stmt, d.Raw, why), nil)
+				return
+			}
+			lines[d.Line] = true
+		}
+		// each toplevel statement starting with a keyword gets a diagnostic of its own (C17): one per line here,
+		// except that "eval 1 +" reports at the keyword of the following line
+		if len(lines) < n-1 {
+			c.Violation("compile-diagnostic-position", fmt.Sprintf("%d lines of %q give diagnostics on %d distinct lines only", n, stmt, len(lines)), nil)
+			return
+		}
+		c.Count("long_program_diagnostics_decoded", int64(len(diags)))
+		c.Nontrivial(core.Hash("long-diags", k))
+	default:
+		nc := []int{10, 239, 240, 241, 245, 2287, 2288, 2400}[k%8]
+		tail := []string{"def blk { x = 1 + missing_name", "def blk { y = 2\n z = missing_name", "bind missing_type -> struct", "print \"s\" * 2 - 1"}[k/8%4]
+		var b strings.Builder
+		for j := 0; j < nc; j++ {
+			fmt.Fprintf(&b, "eval %d.5\n", j)
+		}
+		b.WriteString(tail)
+		want := b.Len()
+		if strings.HasPrefix(tail, "def") {
+			b.WriteString("\n}\n")
+		} else {
+			b.WriteString("\n")
+		}
+		src := []byte(b.String())
+		exp := posString(src, want)
+		var out, lg bytes.Buffer
+		p, err := bcl.Parse(src, "in", bcl.OptOutput(&out), bcl.OptLogger(&lg))
+		if err != nil {
+			c.Inconclusive("harness: a long-constants program does not parse: " + lg.String())
+			return
+		}
+		for route := 0; route < 2; route++ {
+			q := p
+			if route == 1 {
+				d, derr, dpan, _ := dumpOf(p)
+				if derr != nil || dpan != "" {
+					c.Violation("runtime-error-position", fmt.Sprintf("Dump of a program with %d constants fails: %v %s", nc, derr, dpan), nil)
+					return
+				}
+				var lerr error
+				q, lerr = bcl.LoadProg(bytes.NewReader(d), "in", bcl.OptOutput(&out), bcl.OptLogger(&lg))
+				if lerr != nil {
+					c.Violation("runtime-error-position", fmt.Sprintf("the dump of a program with %d constants does not load: %v", nc, lerr), nil)
+					return
+				}
+			}
+			var xerr error
+			pan, stack := protect(func() { _, _, xerr = bcl.Execute(q) })
+			c.Eval(1)
+			if pan != "" {
+				c.Violation(panicSig(pan, stack), "Execute panicked: "+pan, nil)
+				return
+			}
+			if xerr == nil {
+				c.Violation("runtime-error-position", fmt.Sprintf("%d constants, then %q: no runtime error", nc, tail), nil)
+				return
+			}
+			_, pos, ok := lang.ClassOfRuntimeError(xerr.Error())
+			if !ok || pos != exp {
+				c.Violation("runtime-error-position", fmt.Sprintf("%d constants, then %q (%s): error %q, the failing operation's last token ends at %s", nc, tail, []string{"parsed", "dumped and loaded"}[route], xerr, exp), nil)
+				return
+			}
+			c.Count("wide_operand_error_positions_checked", 1)
+		}
+		c.Nontrivial(core.Hash("long-consts", k))
+	}
+}
+
 func c08Limits(c *core.Ctx, i int64, k int) {
 	var b strings.Builder
 	want := -1
@@ -790,7 +915,7 @@ func init() {
 		Rule: "position monitor: (i) decode check on every diagnostic with the harness's own newline index: L:C designates an offset of the source, L-1 newlines precede it, the quoted token is the source text ending exactly there, 'at end' is the end of input; (ii) prediction check: first compile diagnostic at the end of the first non-viable token (independent recognizer), runtime errors and warnings at the end of the last token of the failing operation (reference model + renderer's token spans); " +
 			"(iii) the program's line table equals the newline offsets of the source, one position per code byte, each a token end; (iv) the same diagnostics, positions and line table under chunked ParseFile, the same runtime error after dump and load. " +
 			"Workload: generated programs (runtime errors and warnings at every statement), token-damaged programs (compile errors everywhere), rendered with hostile multi-line layout (blank lines, CR LF, CR-only, comments, multi-byte characters before the error) and padded by 0/250/2300/4100/8200/68000 bytes so that offsets cross the read page and every varint class. " +
-			"distinct = hash of source; non-trivial = at least one position decoded or predicted Also: 34 programs failing exactly at the operand-stack limit with the position expected at the operand whose push finds the stack full; value-less block names (the diagnostic must sit at the name); the dump/load route alternates LoadProg with Prog.Load into a Prog that held another program.",
+			"distinct = hash of source; non-trivial = at least one position decoded or predicted Also: 34 programs failing exactly at the operand-stack limit with the position expected at the operand whose push finds the stack full; value-less block names (the diagnostic must sit at the name); the dump/load route alternates LoadProg with Prog.Load into a Prog that held another program. Long programs: a 1300-line program failing at line L for every L; 1100/2100/3100 lines each with a syntax error of its own (every diagnostic decoded, one per line); 10..2400 constants in front of an operation failing at an operand fetched through a 1-, 2- or 3-byte index, parsed and after dump and load.",
 		Assumptions:   []string{"DESIGN §5.4 'Positions' is the location rule"},
 		MinNontrivial: 1000,
 		Run: func(c *core.Ctx) {
@@ -802,6 +927,18 @@ func init() {
 				if i < 34 {
 					c.Begin(i)
 					c08Limits(c, i, int(i))
+					continue
+				}
+				if i < 34+26+9+32 {
+					c.Begin(i)
+					switch k := int(i) - 34; {
+					case k < 26:
+						c08Long(c, i, 0, k)
+					case k < 26+9:
+						c08Long(c, i, 1, k-26)
+					default:
+						c08Long(c, i, 2, k-26-9)
+					}
 					continue
 				}
 				c.Idle()
